@@ -69,17 +69,18 @@ P = {
    technique="Coq proof (induction over strings/segments with a reader-position and decoder-state invariant) + extracted-model correspondence",
    design_ref="5/C12"),
  "C15": dict(claimed=True,
-   text="Coq theorems over SharedFmla.v, for every oracle is_alnum (char::is_alphanumeric) that is right on ASCII: "
-        "C15_translate_correct / _at (for every well-formed token list — mixed $ forms, look-alike function / sheet / defined names, "
-        "non-ASCII text, quoted sheet names, bracketed references, 1E5 — in range and outside the two remaining classes, "
-        "replace_cell_names (render ts) off = render (map (translate off) ts); per-token scanner lemmas + induction over tokens), "
-        "C15_translate_total (references that would leave the sheet stay unchanged), C15_no_panic (any text, |offset| <= 2^62: Ok), "
+   text="Coq theorems over SharedFmla.v, for every oracle is_alnum (char::is_alphanumeric): C15_translate_correct — unconditional over "
+        "the formula grammar (mixed $ forms, look-alike function / sheet / defined names, non-ASCII text, quoted sheet names, "
+        "bracketed references, 1E5, whole-column / whole-row ranges, 3-D sheet prefixes), for every in-range offset: "
+        "replace_cell_names (render ts) off = render (map (translate off) ts) (per-token scanner lemmas + induction over tokens); "
+        "C15_translate_total (references and whole ranges that would leave the sheet stay unchanged as a whole); "
         "C15_group_covers_range (map keyed by si, declared ref + master position, offset at lookup: every cell of column / row / "
-        "block refs, any master position, any order of shared indices; total and exact). Two known classes (F22-whole-range, "
-        "F22-sheet3d) with vm_compute refutation lemmas. Tie: hook replace_cell_names and A1 helpers, is_alphanumeric oracle taken "
-        "from the harness, generated xlsx sheets with shared groups through worksheet_formula.",
+        "block refs, any master position, any order of shared indices; total and exact). No known class left (all F22 classes "
+        "repaired in /repo). Totality: C15_no_panic (any text, |offset| <= 2^62), C15_no_panic_replace_cell_names / "
+        "_get_row_column / _get_dimension / _next_formula (any <c> sequence, any ref, any si). Tie: hook replace_cell_names and A1 "
+        "helpers, is_alphanumeric oracle taken from the harness, generated xlsx sheets with shared groups through worksheet_formula.",
    note=TB + " The XML layer (attribute parsing, several <f> per cell) is exercised end to end but not modelled; char::is_alphanumeric is a "
-        "Section variable constrained on ASCII only.",
+        "Section variable; wf_formula excludes texts that are ambiguous around ':' (A:B as two names).",
    technique="Coq proof (scanner invariant at token boundaries; induction over token lists and group cells) + extracted-model correspondence",
    design_ref="5/C15"),
  "C08": dict(claimed=True,
